@@ -261,14 +261,15 @@ def request_strategy() -> st.SearchStrategy[dict[str, Any]]:
 
 
 class _AllWorkingTracker:
-    """Stand-in for ComponentPoolStatusTracker: every requested component is working."""
+    """Stand-in for ComponentPoolStatusTracker: every requested component is working (unless declared otherwise)."""
 
     def __init__(self, *args: Any, **kwargs: Any) -> None:
         del args, kwargs
         self.updates: list[tuple[set[int], set[int]]] = []
+        self.not_working: set[int] = set()   # a harness may declare components not working
 
     def get_working_components(self, components: Any) -> set[int]:
-        return set(components)
+        return set(components) - self.not_working
 
     async def update_status(self, succeeded: Any, failed: Any) -> None:
         self.updates.append((set(succeeded), set(failed)))
